@@ -481,6 +481,63 @@ def priority_rule(rep, prog, cfg):
         rep.check(v in alts, rule, "%s/alternative %s present" % (cfg, v), pc[0].loc(pc[0].span), "no alternative produces %s" % v)
 
 
+def grammar_rule(rep, prog, cfg):
+    """A10: the line grammar denoted by the nom combinator trees equals the MPD line grammar."""
+    from .. import grammar as G
+    rule = "C03.grammar"
+    pc = body_by_name(prog, COMPONENT_PARSE)
+    if len(pc) != 1:
+        rep.fail(rule + ".anchor", cfg, COMPONENT_PARSE, "function not found")
+        return
+    alts = alt_table(prog, pc[0])
+    ex = G.Extractor(prog)
+    name = G.ALPHA | {0x5F}
+    text = G.ALL - {10}
+    num = ("parse",)
+    REF = {
+        "EndOfResponse": (G.lit(b"OK\n"), []),
+        "EndOfFrame": (G.lit(b"list_OK\n"), []),
+        "Error": (G.seq(G.lit(b"ACK ["), G.cap(G.rep(G.DIGITS, 1)), G.lit(b"@"), G.cap(G.rep(G.DIGITS, 1)), G.lit(b"] {"),
+                        G.opt(G.cap(G.rep(name, 1))), G.lit(b"} "), G.cap(G.rep(text, 0)), G.lit(b"\n")), ["num", "num", "utf8", "utf8"]),
+        "BinaryField": (G.seq(G.lit(b"binary: "), G.cap(G.rep(G.DIGITS, 1)), G.lit(b"\n"), G.cap(("take", "n")), G.lit(b"\n")), ["num", "raw"]),
+        "Field": (G.seq(G.cap(G.rep(name | {0x2D}, 1)), G.lit(b": "), G.cap(G.rep(text, 0)), G.lit(b"\n")), ["utf8", "utf8"]),
+    }
+    try:
+        top = ex.of_fn(pc[0])
+    except G.Unsupported as e:
+        rep.fail(rule, cfg + "/component parser", pc[0].loc(pc[0].span), "the combinator tree of the component parser cannot be extracted (%s): failing closed" % e)
+        return
+    if top[0] != "alt" or not alts:
+        rep.fail(rule, cfg + "/component parser", pc[0].loc(pc[0].span), "the component parser is not an alt(..) of mapped alternatives (idiom unknown: failing closed)")
+        return
+    for variant, (ref, conds) in REF.items():
+        info = alts.get(variant)
+        if info is None or info["index"] >= len(top[1]):
+            rep.fail(rule, "%s/%s" % (cfg, variant), pc[0].loc(pc[0].span), "no alternative produces %s" % variant)
+            continue
+        try:
+            term = G.flatten(ex.resolve(top[1][info["index"]]))
+            same, wit = G.equivalent(term, G.flatten(ref))
+        except G.Unsupported as e:
+            rep.fail(rule, "%s/%s" % (cfg, variant), pc[0].loc(pc[0].span), "the grammar of the %s alternative cannot be decided (%s): failing closed" % (variant, e))
+            continue
+        rep.check(same, rule, "%s/%s language" % (cfg, variant), pc[0].loc(pc[0].span),
+                  "the %s line parser denotes  %s  — the MPD line grammar is  %s ; shortest distinguishing input (⟨⟩ = captured value): `%s` is accepted only by the %s"
+                  % (variant, G.pretty(term), G.pretty(G.flatten(ref)), wit[1] if wit else "", wit[0] if wit else ""),
+                  detail={"grammar": G.pretty(term)})
+        got = G.conds_of(term)
+        ok = len(got) == len(conds)
+        if ok:
+            for c, want in zip(got, conds):
+                if want == "utf8" and not any(x.endswith("from_utf8") for x in c):
+                    ok = False
+                if want == "num" and not any(x.endswith("::parse") or x.startswith("nom::u") for x in c):
+                    ok = False
+        rep.check(ok, rule, "%s/%s conversions" % (cfg, variant), pc[0].loc(pc[0].span),
+                  "the captured values of the %s line are converted with %s; expected %s (text must be validated UTF-8, numbers parsed with overflow check)" % (variant, got, conds),
+                  detail={"conversions": [list(c) for c in got]})
+
+
 def run(rep, progs, tier):
     rep.explanation = (
         "Rule-based static analysis (no execution), tied to the private ResponseState machine (fails closed "
@@ -491,13 +548,19 @@ def run(rep, progs, tier):
         "written from the protocol (OK, list_OK, ACK, field, binary). ACK fields are tied to tuple "
         "positions of the sequence parser; the binary payload is the split-off message cut by values "
         "derived from data_length only, with no scanning call applied; binary precedes key-value in the "
-        "alternative; Responses are constructed only by the builder. NOT decided: that each nom "
-        "combinator tree denotes the MPD line language.")
+        "alternative; Responses are constructed only by the builder. A10: the nom combinator tree of each "
+        "alternative is rebuilt from MIR as a regular term over bytes (capture markers around every value-"
+        "producing class-based leaf, a symbolic PAYLOAD(N) for take(n), predicates evaluated exactly by A5), "
+        "compiled to an NFA and compared with the MPD line grammar by a product construction over "
+        "determinised subsets; a difference is reported with a shortest distinguishing input. NOT decided: "
+        "UTF-8 decoding itself and integer parsing (delegated to std), the relation between the announced "
+        "and the taken payload length beyond provenance.")
     rep.rule("C03.machine", "builder transition table (5 methods x 3 states) equals the protocol table")
     rep.rule("C03.response-ctor", "Response constructed only by the builder / Response::empty")
     rep.rule("C03.ack", "ACK [code@index] {command} message: fields tied to tuple positions, mapped field to field")
     rep.rule("C03.binary", "payload = split-off message, cut by data_length only, never scanned")
     rep.rule("C03.priority", "binary alternative before key-value; all five alternatives present")
+    rep.rule("C03.grammar", "A10: the regular language (with capture positions and symbolic payload) denoted by each alternative's combinator tree equals the MPD line grammar; conversions of the captures")
     rep.trusted = ["rustc MIR construction", "mpdfacts exporter", "nom sequence/alt semantics", "BytesMut semantics", "MPD protocol reference"]
     for cfg, prog in progs.items():
         machine_rule(rep, prog, cfg)
@@ -505,3 +568,4 @@ def run(rep, progs, tier):
         ack_rule(rep, prog, cfg)
         binary_rule(rep, prog, cfg)
         priority_rule(rep, prog, cfg)
+        grammar_rule(rep, prog, cfg)
